@@ -52,6 +52,8 @@ REAL_VS_STUB = {
 FAULT_PROBES = {"user_exception_in_body": "session_failed_user_exc", "encoder_exception": "session_failed_encoder_exc",
                 "duplicate_key": "session_failed_dup_at_put", "io_error_failed_session": "session_failed_io_error", "lock_timeout_expired": "timeout_fired",
                 "failed_put_caught_and_continued": "failed_put_caught_session_continues"}
+# a small share of the runs is repeated by fresh interpreters started with `python -O` (assert statements stripped)
+INTERP_VARIANTS = [{"flags": ["-O"], "runs": {"quick": 400, "thorough": 8000}, "what": "python -O (assert statements stripped from the code under test)"}]
 PROBES = ["reader_blocked_by_writer", "writer_blocked", "three_or_more_polling", "timeout_fired", "stale_handle_rescan",
           "session_failed_user_exc", "session_failed_encoder_exc", "session_failed_dup_at_put",
           "session_failed_io_error", "queue_nonempty_after_failed_session", "same_path_two_spellings", "two_libraries",
